@@ -20,11 +20,11 @@ pub fn spec() -> Spec {
         replay,
         nshards: |_| 16,
         case_cap_s: |t| t.pick(120, 600),
-        rule: "every labeled tuple of involutions (dim 1-3) up to the size bound is one case per family: 'sym' = commuting tuples x all branching vectors in all symbol representations, queried at every (i,j,d) including out-of-range and |i-j|>1; 'set' = arbitrary tuples in the plain-set representations with every index subset x every duplicate-free seed sequence; 'partial' = every partial set of size <= 2; 'gen' = outputs of DSets/DSyms/covers in the representation they come in. Non-trivial = size >= 2 and connected.",
+        rule: "every labeled tuple of involutions (dim 1-3) up to the size bound is one case per family: 'sym' = commuting tuples x all branching vectors in all symbol representations, queried at every (i,j,d) including out-of-range and |i-j|>1; 'set' = arbitrary tuples in the plain-set representations with every index subset x every duplicate-free seed sequence; 'partial' = every partial set (operations may be undefined on some chambers) of size <= 4 (dim 1), 3 [4] (dim 2), 3 (dim 3): op, r, completeness, and - an undefined operation being no edge - connectedness, looplessness, bipartiteness, orbits for every index subset and seed, orbit representatives for both seed orders; 'gen' = outputs of DSets/DSyms/covers in the representation they come in. Non-trivial = size >= 2 and connected.",
         assumptions: &["symbols are built through the crate's public constructors (build_set, build_sym_using_vs, From conversions); every op/v of the built object is compared with the reference tables before anything else"],
         bounds: |t| json!({"sym": {"dims": [1,2,3], "max_size": t.pick(3, 4), "V": [1,2,3], "V_at_size_4": [1,2], "huge_degrees": "sizes <= 2 [3], one orbit with v = 2^b-1, 2^b, 2^b+1 for b in 7,8,15,16,31,32,53,59"},
                             "set": {"dims": [1,2,3], "max_size": 4, "max_size_dim2_thorough": t.pick(4, 5)},
-                            "partial": {"max_size": 2}, "gen": {"dsets_max_size": {"1": 6, "2": t.pick(5, 6), "3": t.pick(4, 5)}, "covers_max_sheets": 3}}),
+                            "partial": {"max_size": {"1": 4, "2": t.pick(3, 4), "3": 3}}, "gen": {"dsets_max_size": {"1": 6, "2": t.pick(5, 6), "3": t.pick(4, 5)}, "covers_max_sheets": 3}}),
     }
 }
 
@@ -478,12 +478,112 @@ fn check_partial_case(ctx: &mut Ctx, n: usize, dim: usize, ops: &Vec<Vec<Option<
                 }
             }
         }
-        // no panic in the graph routines on partial sets
-        let _ = (pd.is_connected(), pd.is_loopless(), pd.is_weakly_oriented(), pd.is_oriented());
-        for d in 1..=n {
-            let _ = pd.orbit(0..=dim, d);
+        // the graph routines on partial sets: an undefined operation is no edge
+        let reach_p = |idx: &[usize], seed: usize| -> Vec<usize> {
+            let mut seen = vec![false; n];
+            let mut stack = vec![seed];
+            seen[seed] = true;
+            while let Some(d) = stack.pop() {
+                for &i in idx {
+                    if let Some(e) = ops[i][d] {
+                        if !seen[e] {
+                            seen[e] = true;
+                            stack.push(e);
+                        }
+                    }
+                }
+            }
+            (0..n).filter(|&d| seen[d]).map(|d| d + 1).collect()
+        };
+        let all_idx: Vec<usize> = (0..=dim).collect();
+        let ncomp = {
+            let mut seen = vec![false; n];
+            let mut c = 0;
+            for d in 0..n {
+                if !seen[d] {
+                    c += 1;
+                    for e in reach_p(&all_idx, d) {
+                        seen[e - 1] = true;
+                    }
+                }
+            }
+            c
+        };
+        let loopless = (0..=dim).all(|i| (0..n).all(|d| ops[i][d] != Some(d)));
+        let bipartite = {
+            // 2-colouring of the graph of defined non-loop edges
+            let mut col = vec![0i8; n];
+            let mut ok = true;
+            for s0 in 0..n {
+                if col[s0] != 0 {
+                    continue;
+                }
+                col[s0] = 1;
+                let mut stack = vec![s0];
+                while let Some(d) = stack.pop() {
+                    for i in 0..=dim {
+                        if let Some(e) = ops[i][d] {
+                            if e == d {
+                                continue;
+                            }
+                            if col[e] == 0 {
+                                col[e] = -col[d];
+                                stack.push(e);
+                            } else if col[e] == col[d] {
+                                ok = false;
+                            }
+                        }
+                    }
+                }
+            }
+            ok
+        };
+        let got = (pd.is_connected(), pd.is_loopless(), pd.is_weakly_oriented(), pd.is_oriented());
+        let exp = (ncomp <= 1, loopless, bipartite, bipartite && loopless);
+        if got != exp {
+            bad.push(format!("(connected,loopless,weakly_oriented,oriented) = {:?}, expected {:?}", got, exp));
         }
-        let _ = pd.orbit_reps(0..=dim, 1..=n);
+        for mask in 0..(1usize << (dim + 1)) {
+            let idx: Vec<usize> = (0..=dim).filter(|i| mask >> i & 1 == 1).collect();
+            for d in 1..=n {
+                let mut o = pd.orbit(idx.clone(), d);
+                o.sort();
+                let e = reach_p(&idx, d - 1);
+                if o != e {
+                    bad.push(format!("orbit({:?}, {}) = {:?}, expected {:?}", idx, d, pd.orbit(idx.clone(), d), e));
+                }
+            }
+            // one representative per component, the first seed met in each
+            for seeds in [(1..=n).collect::<Vec<usize>>(), (1..=n).rev().collect::<Vec<usize>>()] {
+                let reps = pd.orbit_reps(idx.clone(), seeds.clone());
+                let mut exp_reps = vec![];
+                let mut seen = vec![false; n + 1];
+                for &sd in &seeds {
+                    if !seen[sd] {
+                        exp_reps.push(sd);
+                        for e in reach_p(&idx, sd - 1) {
+                            seen[e] = true;
+                        }
+                    }
+                }
+                if reps != exp_reps {
+                    bad.push(format!("orbit_reps({:?}, {:?}) = {:?}, expected {:?}", idx, seeds, reps, exp_reps));
+                }
+                // every chamber of the traversed components is visited
+                let mut visited: Vec<usize> = pd.traversal(idx.clone(), seeds.clone()).map(|(_, _, e)| e).collect();
+                visited.sort();
+                visited.dedup();
+                if visited != (1..=n).collect::<Vec<_>>() {
+                    bad.push(format!("traversal({:?}, {:?}) visits {:?}", idx, seeds, visited));
+                }
+            }
+        }
+        let fo: Vec<Vec<usize>> = (1..=n).map(|d| { let mut o = pd.full_orbit(d); o.sort(); o }).collect();
+        for d in 1..=n {
+            if fo[d - 1] != reach_p(&all_idx, d - 1) {
+                bad.push(format!("full_orbit({}) = {:?}", d, fo[d - 1]));
+            }
+        }
         let _ = pd.full_traversal().count();
         let _ = format!("{}", pd);
         bad
@@ -599,7 +699,8 @@ fn run(ctx: &mut Ctx) {
     }
     // family partial
     for dim in 1..=3usize {
-        for n in 1..=2usize {
+        let nmax = match dim { 1 => 4, 2 => ctx.tier.pick(3, 4), _ => 3 };
+        for n in 1..=nmax {
             let pi = partial_involutions(n);
             let total = pi.len().pow(dim as u32 + 1);
             for code in 0..total {
